@@ -189,7 +189,7 @@ Dec(T, d, pos, le, fuel, ZeroOK) ==
                     len == Num(IF le THEN n4 ELSE Rev(n4))
                     ep == p + 4 + PadLen(p + 4, Align(T[2]))
                     end == ep + len
-                IN IF end > L /\ ~ZeroOK THEN Err("short", 1)
+                IN IF end > L THEN Err("short", 1)
                    ELSE LET r == DecElems(T[2], d, ep, end, le, fuel - 1, ZeroOK, <<>>)
                         IN IF r.ok THEN [r EXCEPT !.n = r.n + 1] ELSE Err(r.why, r.n + 1)
       [] c = "(" ->
